@@ -1,5 +1,5 @@
 """C04 — generic-interaction sampler: loop update, exit-leg heat bath, gate, offsets, pipeline."""
-from checks import kern
+from checks import kern, law_audits
 from checks import pure_fns
 from checks import full_step
 LEAN_TARGETS = ["drv_step", "QmcProofs.SamplerStep", "QmcProofs.SamplerCluster", "QmcProps.C04", "drv_c04", "QmcProps.C08", "drv_c08", "QmcProps.C02", "drv_c02"]
@@ -53,6 +53,12 @@ THEOREMS = [
     "loop_path_balance",
     "loop_reverse_is_loop",
     "loop_path_balance_retraced",
+    "loop_step_follows_exit",
+    "loop_model_run_is_enumerated",
+    "loop_reverse_run",
+    "loop_kernel_reversible_truncated",
+    "loop_kernel_reversible_cut_truncated",
+    "loop_kernel_flow_truncated",
     "reach_flags",
     "cluster_gate",
     "offset_bookkeeping",
@@ -145,4 +151,5 @@ def main(ck):
                     "operators untouched, max-weight table) and C02 (heat-bath table validity and ratio) are re-audited / re-run here, "
                     "so that a change to the diagonal update (diagonal.rs / heatbath.rs) is reported against C04 as well.")
     full_step.run(ck, modes=["generic"], audit=True)
+    law_audits.run(ck, groups=["generic"])   # law of the executable generic step (loops off) = kernels; C04 capstone
     return ck.finish(RULE)
